@@ -280,3 +280,17 @@ func (s *Solver) SolveFresh(name, query string) *SolveResult {
 	}
 	return last
 }
+
+
+// ConcreteFP replaces the uninterpreted floating-point product/quotient by the
+// IEEE-754 operations (round to nearest even).
+func ConcreteFP(q string) string {
+	for _, w := range []struct{ n, s string }{{"32", "(_ FloatingPoint 8 24)"}, {"64", "(_ FloatingPoint 11 53)"}} {
+		for _, op := range []string{"mul", "div"} {
+			old := fmt.Sprintf("(declare-fun ufp%s%s (%s %s) %s)\n", op, w.n, w.s, w.s, w.s)
+			neu := fmt.Sprintf("(define-fun ufp%s%s ((x %s) (y %s)) %s (fp.%s RNE x y))\n", op, w.n, w.s, w.s, w.s, op)
+			q = strings.Replace(q, old, neu, 1)
+		}
+	}
+	return q
+}
